@@ -1,6 +1,9 @@
 //! Simulated worlds (engines).
+pub mod frost;
 pub mod hash;
+pub mod mangle;
 pub mod selftest;
+pub mod suite;
 
 use crate::core::RunOut;
 use crate::runner::{Engine, Tier};
@@ -11,8 +14,25 @@ fn run_hash(t: &mut Tape, tier: Tier, out: &mut RunOut) {
     hash::run(t, &cfg, out);
 }
 
+fn run_frost(t: &mut Tape, tier: Tier, out: &mut RunOut) {
+    // suite first, so a shrunk tape keeps its ciphersuite
+    let suite = t.usize(5);
+    let big_n = t.chance(1, 12);
+    let cfg = frost::Cfg { tier, big_n };
+    match suite {
+        0 => frost::run::<suite::Ed25519>(t, &cfg, out),
+        1 => frost::run::<suite::Ristretto255>(t, &cfg, out),
+        2 => frost::run::<suite::P256>(t, &cfg, out),
+        3 => frost::run::<suite::Secp256k1>(t, &cfg, out),
+        _ => frost::run::<suite::Ed448>(t, &cfg, out),
+    }
+}
+
 pub fn registry() -> Vec<Engine> {
-    vec![Engine { name: "hash", run: run_hash, hang_allowance_s: 60 }]
+    vec![
+        Engine { name: "hash", run: run_hash, hang_allowance_s: 60 },
+        Engine { name: "frost", run: run_frost, hang_allowance_s: 300 },
+    ]
 }
 
 /// Which crrl backend this binary was built with (for evidence files).
